@@ -6,6 +6,7 @@ Require Import SDS.Model.Mach SDS.Model.Bits SDS.Model.Raw SDS.Model.IntVec SDS.
 Require Import SDS.Spec.Stream SDS.Check.Common.
 Require Export SDS.Model.Ser SDS.Check.SerCommon.
 Require Export SDS.Check.SerWM.   (* WMCore / WaveletMatrix: the CStripW case *)
+Require SDS.Check.SerSparse SDS.Model.SerSparse SDS.Model.Sparse.
 Import ListNotations.
 Open Scope N_scope.
 
@@ -25,6 +26,11 @@ Inductive case :=
    consumed [consumed] bytes; eq_native: the loaded value == the natively built one; answers: sampled queries agree *)
 | CStripW (path : N) (dbg : bool) (t : wty) (V : list N) (subset : N) (elems : list N) (extra : list N) (consumed : N)
           (eq_native answers : bool)
+(* SparseVector of (len, vals) built natively with low width w; elems = its file with the embedded high bitvector
+   rewritten to carry only the supports of [subset] (bit 1 select, bit 2 select_zero; what another writer of the
+   format produces); loading it (followed by [extra]) consumed [consumed] bytes; eq_native / answers as in CStripW *)
+| CStripS (w path : N) (dbg : bool) (len : N) (multi : bool) (vals : list N) (subset : N) (elems : list N)
+          (extra : list N) (consumed : N) (eq_native answers : bool)
 (* a call of the library panicked where none is allowed while the CSupp observations of these bits were taken *)
 | CCrash (len : N) (words : list N) (k : N).
 
@@ -95,6 +101,24 @@ Definition check (c : case) : N :=
       let m_ok := SerWM.stripped_ok (sp_of path) (mode_of dbg) t V subset bytes extra consumed in
       let s_ok := eq_native && answers && (consumed =? 8 * lenN elems) && SerWM.header_ok t V elems in
       code m_ok s_ok
+  | CStripS w path dbg len multi vals subset elems extra consumed eq_native answers =>
+      let sp := sp_of path in let m := mode_of dbg in
+      let bytes := stream elems [] in
+      let m_ok :=
+        match SerSparse.build_sv sp m w len multi vals with
+        | Some x =>
+            let c := SDS.Model.SerSparse.sparse_codec sp m in
+            let x' := SDS.Model.Sparse.mksv (SDS.Model.Sparse.sv_len x) (bv_restrict subset (SDS.Model.Sparse.sv_high x))
+                                            (SDS.Model.Sparse.sv_low x) in
+            nlist_eqb (c_enc c x') bytes
+            && match c_dec c (bytes ++ extra) with
+               | IoOk (y, rest) => SerSparse.sv_eqb x y && nlist_eqb rest extra && (consumed =? lenN bytes)
+               | _ => false
+               end
+        | None => false
+        end in
+      let s_ok := eq_native && answers && (consumed =? 8 * lenN elems) in
+      code m_ok s_ok
   | CCrash _ _ _ => 3
   end.
 
@@ -109,5 +133,7 @@ Definition explain (c : case) :=
   | CSkip dbg elems outcome pos next => ([], io_code (skip_option (mode_of dbg) (stream elems [])))
   | CStripW path dbg t V subset elems extra consumed eq_native answers =>
       ([], fst (SerWM.bad_dec (sp_of path) (mode_of dbg) t (stream elems [] ++ extra)))
+  | CStripS w path dbg len multi vals subset elems extra consumed eq_native answers =>
+      ([], io_code (c_dec (SDS.Model.SerSparse.sparse_codec (sp_of path) (mode_of dbg)) (stream elems [] ++ extra)))
   | CCrash _ _ _ => ([], 98)
   end.
